@@ -1316,7 +1316,17 @@ func runLoop(id int, r *rand.Rand) *LoopCase {
 	if lc.Final == 0 {
 		lc.Oracle = "zero-index"
 	} else if lc.Min != 0 && !(lc.Final > lc.Min) && !lc.Timed && !abandoned {
-		lc.Oracle = "returned-early"
+		// the effective minimum may have been replaced by the index of an earlier round that
+		// answered not-found / not-changed twice (blockingquery.go: minQueryIndex = GetIndex())
+		ok := false
+		for j := 0; j+1 < len(lc.Calls); j++ {
+			if lc.Calls[j].Err != 0 && lc.Final > floor1(lc.Calls[j].Idx) {
+				ok = true
+			}
+		}
+		if !ok {
+			lc.Oracle = "returned-early"
+		}
 	}
 	return lc
 }
